@@ -295,7 +295,7 @@ def check(ctx):
     ctx.explanation = EXPLANATION
     ctx.trusted = ["Vec::from(Box<[T]>) and Vec::into_boxed_slice reuse the allocation when len == capacity (std documentation)", "Box / Vec ownership", "C01 layout equality of [T] of length N and GenericArray<T, N>"]
     ctx.assumptions = ["allocator call counts and block addresses as observed at run time are outside the claim", "stack usage of std's own frames (Vec::extend, vec!) is not analysed"]
-    cfgs = ["F1"] if ctx.tier == "quick" else ["F1", "F2"]
+    cfgs = ["F1", "F1N"] if ctx.tier == "quick" else ["F1", "F1N", "F2", "F2N"]
     ctx.need(*cfgs)
     for cfg in cfgs:
         check_guards(ctx, cfg)
